@@ -1,6 +1,7 @@
 CFG = {
     "lean_targets": ["Norad.Props.C12"],
     "audit": "Norad/Audit/C12.lean",
+    "extract": "glif_parser",
     "rule": ("glif documents composed from legal building blocks (every element kind, both format versions, random element and "
              "attribute order) with each of 46 violation / variation kinds injected at random applicable positions (2 per kind and base "
              "document in quick, 3 in thorough), a second independent violation on top in 1 of 12, plus text-level damage "
